@@ -203,6 +203,10 @@ def prog_access(env, case):
         obj, accs = objs[kind]
     for acc in accs:
         expect_value_error(env, obj, acc, tag + ":" + acc)
+    if kind == 'classCons':
+        f = model['f']
+        if len(f.tables_of_constraints) > 0:
+            expect_value_error(env, f, 'get_class_constraints_duals', tag + ":get_class_constraints_duals")
     return "%s %s" % (moment, kind)
 
 
@@ -246,6 +250,10 @@ def prog_status(env, case):
         for kind, (obj, accs) in objs.items():
             for acc in accs:
                 expect_value_error(env, obj, acc, "C16:after-%s:%s:%s" % ('failed', kind, acc))
+        # the per-function accessor of the tables of multipliers: no solution => no numbers
+        f = model['f']
+        if len(f.tables_of_constraints) > 0:
+            expect_value_error(env, f, 'get_class_constraints_duals', "C16:after-failed:function:get_class_constraints_duals")
     return status
 
 
